@@ -119,3 +119,20 @@ mutant("c07-itp-sigma", "C07", "R7.5/roots::itp", (RT, "let sigma = (x_half - x_
 mutant("c07-itp-signs", "C07", "R7.6/roots::itp", (RT, "        if f_itp > N::zero() {\n            right = x_itp;\n            f_right = f_itp;\n        } else if f_itp < N::zero() {", "        if f_itp.is_sign_positive() {\n            right = x_itp;\n            f_right = f_itp;\n        } else if f_itp.is_sign_negative() {"))
 mutant("c07-itp-tol-guard", "C07", "R7.1/roots::itp/guard:tol", (RT, "    if !tol.is_sign_positive() {\n        return Err(\"itp: tolerance must be positive\".to_owned());\n    }\n", ""))
 benign("c07-bisect-refactor", "C07", (RT, "        half_interval = (right - left) * half;\n\n        let middle_new = left + half_interval;", "        half_interval = (right - left) * half;\n\n        let middle_new = right - half_interval;"))
+
+# ---- C08
+RP = "src/roots/polynomial.rs"
+mutant("c08-jac-plus", "C08", "R8.1/roots::jac_finite_diff/sum-of-weights", (RT, "let jac_col = (above - below) * denom;", "let jac_col = (above + below) * denom;"))
+mutant("c08-jac-denom", "C08", "R8.1/roots::jac_finite_diff/first-moment", (RT, "    let h = N::from_real(h);\n    let denom = N::one() / (N::from_i32(2).unwrap() * h);\n\n    for col in 0..mat.row(0).len() {", "    let h = N::from_real(h);\n    let denom = N::one() / h;\n\n    for col in 0..mat.row(0).len() {"))
+mutant("c08-jac-not-restored", "C08", "R8.1/roots::jac_finite_diff/restored", (RT, "        let below = f(x.as_slice());\n        x[col] += h;\n        let jac_col", "        let below = f(x.as_slice());\n        let jac_col"))
+mutant("c08-newton-norm-test", "C08", "R8.2/roots::newton/success", (RT, "if adjustment.norm() <= tol {", "if (guess.norm() - new_guess.norm()).abs() <= tol {"))
+mutant("c08-newton-origin", "C08", "R8.2/roots::newton/early-success", (RT, "    let mut guess = SVector::<N, S>::from_column_slice(initial);\n    let mut n = 0;\n\n    while n < n_max {\n        let f_val", "    let mut guess = SVector::<N, S>::from_column_slice(initial);\n    let mut n = 0;\n    if guess.norm() <= tol {\n        return Ok(guess);\n    }\n\n    while n < n_max {\n        let f_val"))
+mutant("c08-newton-sign", "C08", "R8.5/roots::newton/update", (RT, "let f_val = -f(guess.as_slice());", "let f_val = f(guess.as_slice());"))
+mutant("c08-newton-unwrap", "C08", "R8.4/roots::secant", (RT, "    let mut jac_inv = if let Some(inv) = try_inv {\n        inv\n    } else {\n        return Err(\"Secant: Can not inverse finite element difference jacobian\".to_owned());\n    };", "    let mut jac_inv = try_inv.unwrap();"))
+mutant("c08-newtonpoly-test", "C08", "R8.2/roots::polynomial::newton_polynomial/success", (RP, "if step.abs() <= tol {\n            return Ok(new_guess);\n        }\n\n        guess = new_guess;", "if (new_guess.abs() - guess.abs()).abs() <= tol {\n            return Ok(new_guess);\n        }\n\n        guess = new_guess;"))
+mutant("c08-newtonpoly-update", "C08", "R8.5/roots::polynomial::newton_polynomial/update", (RP, "let new_guess = guess - step;", "let new_guess = guess + step;"))
+mutant("c08-cap-no-increment", "C08", "R8.3/roots::secant/counter-loop", (RT, "            return Ok(guess);\n        }\n        n += 1;\n    }\n\n    Err(\"Secant: Maximum iterations exceeded\".to_owned())", "            return Ok(guess);\n        }\n    }\n\n    Err(\"Secant: Maximum iterations exceeded\".to_owned())"))
+mutant("c08-steffensen-unguarded", "C08", "R8.6/roots::steffensen", (RT, "        if denom == N::zero() {", "        if denom == N::one() {"))
+mutant("c08-muller-start", "C08", "R8.7/", (RP, "Complex::<N::RealField>::new(initial.2.real(), initial.2.imaginary())", "Complex::<N::RealField>::new(initial.2.real(), initial.1.imaginary())"))
+mutant("c08-muller-test", "C08", "R8.2/roots::polynomial::muller_polynomial/success", (RP, "if step.abs() <= tol {\n            return Ok(p);", "if (p.abs() - poly_2.abs()).abs() <= tol {\n            return Ok(p);"))
+benign("c08-newton-refactor", "C08", (RT, "if adjustment.norm() <= tol {", "if (new_guess - guess).norm() <= tol {"))
